@@ -8,8 +8,8 @@ git -C /repo worktree add --detach $W HEAD -q || exit 2
 cd $W
 git apply $S/patch.diff || { echo "PATCH DOES NOT APPLY"; cd /; git -C /repo worktree remove --force $W; exit 2; }
 go build ./... >/dev/null 2>&1 && echo "build: ok" || echo "build: FAILED"
-go test -count=1 -vet=off $TESTS > $W/t1.log 2>&1 && echo "existing tests with patch: pass" || { echo "existing tests with patch: FAIL"; tail -5 $W/t1.log; }
-cp $S/demo_test.go $PKG/zz_demo_test.go
+go test -count=1 -vet=off $TESTS > $W/t1.log 2>&1; grep -E '^(FAIL|---  FAIL|--- FAIL)' $W/t1.log | grep -v 'TestWAL_GetToken|pkg/wal' | head -5; echo "existing tests with patch: done (failures other than the offline pkg/wal one are listed above)"
+mkdir -p $PKG; cp $S/demo_test.go $PKG/zz_demo_test.go
 go test -count=1 -vet=off -run 'Demo|Seed|Seeded' ./$PKG/ > $W/t2.log 2>&1 && echo "demo with patch: PASSES (bad)" || echo "demo with patch: fails (good)"
 git checkout -q -- . 
 go test -count=1 -vet=off -run 'Demo|Seed|Seeded' ./$PKG/ > $W/t3.log 2>&1 && echo "demo without patch: passes (good)" || { echo "demo without patch: FAILS (bad)"; tail -5 $W/t3.log; }
